@@ -140,6 +140,8 @@ struct RtModel : mcx::Model {
             add(GEN, 0, 0, 0, 30, "generate(30ms)", "time"); add(GEN, 0, 0, 0, 5000, "generate(5s)", "time"); add(GEN, 0, 0, 0, 120000, "generate(120s)", "time");
         } else {
             add(GEN, 0, 0, 0, 12, "generate(12ms)", "time"); add(GEN, 0, 0, 0, 40, "generate(40ms)", "time");
+            // C04's invariants do not depend on which side of the 30 ms drum life time a tick falls, so the step that lands on it exactly (1323 frames at 44100 Hz) belongs to its alphabet (C05 keeps away from the equality: the statement does not fix it)
+            if(g_prop == "C04") add(GEN, 0, 0, 0, 30, "generate(30ms)", "time");
         }
         if(g_prop == "C04" || g_prop == "C03") {   // (C03: same real-time alphabet, oracle = memory safety and termination only)
             add(BEND, 0, 12000, 0, 0, "bend(0,12000)", "bend"); add(BEND, 0, 8192, 0, 0, "bend(0,8192)", "bend");
@@ -163,6 +165,7 @@ struct RtModel : mcx::Model {
         if(with_seq) {
             add(TICKSEQ, 0, 0, 0, 11, "tickEvents(11ms)", "seqTick", true);
             add(TICKSEQ, 0, 0, 0, 43, "tickEvents(43ms)", "seqTick", true);
+            if(g_prop == "C04") add(TICKSEQ, 0, 0, 0, 30, "tickEvents(30ms)", "seqTick", true);
         }
         if(!only_ops.empty()) {   // focused alphabet: fewer operations, deeper histories
             std::regex re(only_ops); std::vector<Op> keep; for(auto &o : ops) if(std::regex_search(o.name, re)) keep.push_back(o); ops.swap(keep);
